@@ -247,9 +247,43 @@ def r2_reference_analysis(ctx) -> None:
     r.floor("C19.R2", 9)
 
 
+def _r3_exclusion_table(ctx) -> None:
+    """The exclusion table of a validator configuration, interpreted (sa.tabulate; uuid.UUID and defaultdict are the only
+    library objects): every entry of the `exclusions` map ends up under the normalised id of its rule — two spellings of one
+    id are one rule, their exclusions are merged."""
+    from collections import defaultdict
+    from uuid import UUID
+    from ..tabulate import Interp, Raised
+    r, prog = ctx.r, ctx.prog
+    f = prog.func("sigma.validation.SigmaValidator.from_dict")
+    V1, V2, V3 = (type(n, (), {}) for n in ("V1", "V2", "V3"))
+    got = {}
+
+    def cls(validator_classes, exclusions, configuration=None):
+        got["ex"] = {k: set(v) for k, v in dict(exclusions).items()}
+        return "validator"
+    uid = "9a6b8f0e-3c1d-4e2a-8b7c-1d2e3f4a5f60"
+    d = {"validators": ["all"], "exclusions": {uid: "v1", uid.upper(): ["v2"], "{" + uid + "}": "v3", "11111111-2222-3333-4444-555555555555": "v1"}}
+    it = Interp({"cls": cls, "d": d, "validators": {"v1": V1, "v2": V2, "v3": V3}, "UUID": UUID, "defaultdict": defaultdict,
+                 "SigmaConfigurationError": type("SigmaConfigurationError", (Exception,), {}), "KeyError": KeyError}, max_steps=5000)
+    try:
+        it.call(f.node.body)
+    except Raised as ex:
+        r.violation("C19.R3", f.qual, "from_dict with the same rule id in three spellings", f"raises {ex}", f.loc)
+        return
+    want = {UUID(uid): {V1, V2, V3}, UUID("11111111-2222-3333-4444-555555555555"): {V1}}
+    if got.get("ex") == want:
+        r.ok("C19.R3", f.qual, "exclusion table: entries for one rule id in several spellings are merged under the normalised id", f.loc)
+    else:
+        shown = {str(k): sorted(c.__name__ for c in v) for k, v in (got.get("ex") or {}).items()}
+        r.violation("C19.R3", f.qual, f"exclusion table {shown}",
+                    "the same rule id written in two spellings (upper/lower case, braces, urn:uuid:) yields one key: a later entry replaces the exclusions of an earlier one instead of adding to them, so an excluded validator still reports the rule", f.loc)
+
+
 def r3_exclusions_uniqueness(ctx) -> None:
     r, prog = ctx.r, ctx.prog
     r.rule("C19.R3", "validate_rule skips a validator iff its class is in exclusions[rule.id]; uniqueness tables are filled unconditionally (only a None test on the key) in validate and reported in finalize for groups with more than one member")
+    _r3_exclusion_table(ctx)
     vr = prog.func("sigma.validation.SigmaValidator.validate_rule")
     src = unparse(vr.node)
     ext = [c for c in walk_no_nested(vr.node) if isinstance(c, ast.Call) and call_name(c) == "issues.extend"]
